@@ -1,6 +1,6 @@
 SPECIFICATION SimSpec
 CONSTANTS
-  Parties = {"p1", "p2", "p3", "p4", "p5"}
+  Parties = {"p1", "p2", "p3", "p4", "p5", "p6", "p7"}
   Creator = "p1"
   MaxCommits = 40
   MaxProps = 40
@@ -14,9 +14,12 @@ CONSTANTS
   Window = 2
   Retention = 2
   BurstSizes = {1, 2}
+  PskIds = {}
+  PskValues = {"none"}
+  Deviations = {"F12"}
   MaxApps = 0
-  Depth = 60
-  WProgress = 60
+  Depth = 70
+  WProgress = 62
   WPropose = 30
   WCommit = 35
   WApp = 15
@@ -29,6 +32,8 @@ INVARIANT PrivMatchesPub
 INVARIANT RecipientsEntitled
 INVARIANT NoDecapFailure
 INVARIANT PendingOnCurrentEpoch
+INVARIANT SendImpliesRecv
+INVARIANT CommittedListsLegal
 INVARIANT ProvidersAgree
 INVARIANT RetentionExact
 INVARIANT NoGenerationReuse
